@@ -75,6 +75,9 @@ pub enum Dev {
     CpScript(CpK),
     /// allowlist edited after setup and before signing: remove everything
     AllowlistCleared,
+    /// the allowlisted script is removed (in one request with an address that was never listed)
+    /// and the signer restarted before signing
+    AllowlistRemovedRestart,
     /// phase 1 only: outputs in the other order
     Swap,
     /// raw tx fields (phase 1)
@@ -250,6 +253,7 @@ fn run_case(case: &Case) -> Res {
     let mut no_cp_script = false;
     let mut cp_kind: Option<CpK> = None;
     let mut cleared = false;
+    let mut removed_restart = false;
     for d in &case.devs {
         match d {
             Dev::NonPayer(x) => nonpayer += *x as i128,
@@ -260,6 +264,10 @@ fn run_case(case: &Case) -> Res {
             Dev::NoCpScript => no_cp_script = true,
             Dev::CpScript(k) => cp_kind = Some(*k),
             Dev::AllowlistCleared => cleared = true,
+            Dev::AllowlistRemovedRestart => {
+                cleared = true;
+                removed_restart = true;
+            }
             _ => {}
         }
     }
@@ -318,10 +326,20 @@ fn run_case(case: &Case) -> Res {
     }
     let upfront_script = ch.setup.holder_shutdown_script.clone();
     let b = Built { to_holder, to_cp, holder_script: holder_script.clone(), cp_script: cp_script.clone(), path: path.clone(), script_kind, cleared, upfront_script, cp_kind };
-    if cleared {
+    let ch = if removed_restart {
         let node = ch.w.node.clone();
-        let _ = call(move || node.set_allowlist(&[]).map_err(|e| status_kind(&e)));
-    }
+        let net = ch.w.cfg.network;
+        let gone = vec![foreign_address(1, net), foreign_address(9, net)];
+        let _ = call(move || node.remove_allowlist(&gone).map_err(|e| status_kind(&e)));
+        let Chan { w, cp, setup, params, v } = ch;
+        Chan { w: w.restart(), cp, setup, params, v }
+    } else {
+        if cleared {
+            let node = ch.w.node.clone();
+            let _ = call(move || node.set_allowlist(&[]).map_err(|e| status_kind(&e)));
+        }
+        ch
+    };
     // ---------------- reference ----------------
     let refr = reference(case, &v, &vw, &b, (h_hc, h_cc, c_hc, c_cc));
     if let Err(w) = &refr {
@@ -572,6 +590,7 @@ fn alphabet(case: &Case) -> Vec<Dev> {
         v.push(Dev::CpScript(k));
     }
     v.push(Dev::AllowlistCleared);
+    v.push(Dev::AllowlistRemovedRestart);
     if case.phase1 {
         v.push(Dev::Swap);
         v.push(Dev::PathsSwapped);
